@@ -2,15 +2,27 @@
 import os
 import subprocess
 
-from props.polycases import P, W, coef, poly, grp
+from props.polycases import P, W, coef, poly
+from props.polycases import grp as _grp
+
+_GRP_COUNT = [0]
+
+
+def grp(cs, k=0, borrowed=None):
+    """polynomial group; unless stated, every third polynomial BORROWS its coefficients (Polynomial::new_borrowed)"""
+    if borrowed is None:
+        _GRP_COUNT[0] += 1
+        borrowed = _GRP_COUNT[0] % 3 == 0
+    return _grp(cs, k, borrowed)
 
 ID = "C08"
 GEN_TAGS = ["PolyGen"]
 PROOF_TARGETS = ["proofs/PolyInterpAlg.vo", "proofs/PolyInterpBase.vo", "proofs/PolyInterpProofs.vo",
                  "proofs/PolyDeepenDiv.vo", "proofs/PolyDeepenInterp.vo", "proofs/PolyDeepenNewton.vo",
-                 "proofs/PolyDeepenFmci.vo", "proofs/PolyDeepenBary.vo", "proofs/PolyDeepenColinear.vo", "proofs/PolyDeepenCodec.vo", "proofs/PolyDeepenXfe.vo"]
+                 "proofs/PolyDeepenFmci.vo", "proofs/PolyDeepenBary.vo", "proofs/PolyDeepenColinear.vo", "proofs/PolyDeepenCodec.vo", "proofs/PolyDeepenXfe.vo",
+                 "proofs/PolyFmciGen.vo", "proofs/PolyGenExamples.vo"]
 PROPS_FILE = "props/C08.v"
-EXTRA_PROPS_FILES = ["props/C08b.v"]
+EXTRA_PROPS_FILES = ["props/C08b.v", "props/C08c.v"]
 EXTRACT = "extract/ExtractC08.vo"
 ORACLE = ("gen_c08", "c08.ml")
 HARNESS = "c08"
@@ -70,6 +82,18 @@ ASSUMPTIONS = [
     "polynomial, so that products stay in the range of multiply; compatibility wr(l+1)^2 = wr(l) of the roots; base-field "
     "arithmetic on offsets and `slift` denote field arithmetic) - the proved theorems state them explicitly and discharge "
     "them for BFieldElement and XFieldElement. The XFieldElement instances of every strategy are C08_xfe_* (proofs/PolyDeepenXfe.v)",
+    "UPDATE (general theorem, props/C08c.v, proofs/PolyFmciGen.v): fast_modular_coset_interpolate, its preprocessing and "
+    "fast_modular_coset_interpolate_with_zerofiers_and_ntt_friendly_multiple for EVERY codeword length the code accepts - the "
+    "recursion transforms at most 2^17 elements at a time, so the length is limited by the root table (2^32), not by the transforms "
+    "(2^31): C08_fmci_general (generic, two maxima lmaxI / lmaxR), C08_bfe_fmci_general / C08_xfe_fmci_general (l <= 32, nothing "
+    "assumed): the preprocessing returns, both entry points return the same r, THE interpolant exists and r is THE remainder of it "
+    "modulo the modulus (is_rem, stronger than the congruence of C08_fmci_small_partial / C08_fmci_spec); "
+    "C08_*_fmci_accepted_lengths: the accepted codeword lengths are exactly 2^0 .. 2^32; C08_fmci_rejects_no_root. Size hypothesis "
+    "left: modulus degree <= 2^29 (sufficient for the transforms inside reduce / shift_factor_ntt_with_tail_length / multiply to stay "
+    "<= 2^31 elements; not necessary: by inspection of the model, for sparse moduli such as X^(2^29+1) + 1 the products formed "
+    "stay shorter and the preprocessing still succeeds - acceptance is not a threshold in the degree - so for larger moduli nothing is claimed). Length 2^32 cannot be executed here (32 GiB per vector); C08_ex_fmci_length_2_32 instantiates the "
+    "theorem there without executing. Executed instances (VM) live in proofs/PolyGenExamples.v, a proof target that the props files do "
+    "not import (coqchk has no VM); the same inputs on the real code print the same coefficients",
 ]
 RULE = ("n in {0,1,2,15,16,17,99,100,101,255,256,257} (thorough: 4095,4096,4097,8192) for every zerofier and interpolation "
         "strategy over arithmetic-progression, geometric-progression and random duplicate-free domains, duplicate abscissae, "
@@ -307,6 +331,16 @@ def cases(tier, rng):
                 a = grp(poly(rng, f, deg), rng.choice((0, 0, 2)))
                 for op in eops:
                     add("evaluate-ratio", "%s %s %s | %s" % (op, f, a, flat(d)))
+        # polynomials with vanishing LOW-order coefficients (x^t * q), owned and borrowed, across the reduce / no-reduce arms
+        for m in (2, 20, 100):
+            d = dom_random(rng, f, m)
+            for (t, dq) in ((1, 0), (1, 5), (3, 2), (2, 14), (1, 99), (5, 60)):
+                if f == "x" and dq > 60:
+                    continue
+                cs = [[0] * W[f] for _ in range(t)] + poly(rng, f, dq)
+                for bo in (False, True):
+                    for op in eops:
+                        add("evaluate-low-zeros", "%s %s %s | %s" % (op, f, grp(cs, 0, bo), flat(d)))
         # empty domain, repeated points, zero polynomial with stored zeros
         for deg in (-1, 0, 3, 70):
             for op in eops:
